@@ -410,6 +410,9 @@ pub fn check_bridge(c: &BridgeCase, st: &mut Stats) -> Result<(), String> {
 pub struct BridgeSession {
     /// (line without terminator, what the bus does if the line reaches it)
     pub lines: Vec<(Vec<u8>, BusBehaviour)>,
+    /// every n-th read() call of the port reports ErrorKind::Interrupted (which a reader has to retry)
+    #[serde(default)]
+    pub interrupt_every: Option<u8>,
 }
 
 struct ScriptedRecBus {
@@ -435,7 +438,12 @@ pub fn check_bridge_session(c: &BridgeSession, st: &mut Stats) -> Result<(), Str
         tape.extend_from_slice(b"\r\n");
         ends.push(tape.len());
     }
-    let port = TestPort::with_state(PortState::new(tape.clone()));
+    let mut pstate = PortState::new(tape.clone());
+    if let Some(n) = c.interrupt_every {
+        let n = n.max(2) as usize;
+        pstate.read_script = (0..6000).map(|i| if i % n == n - 1 { crate::io::port::ReadStep::Interrupted } else { crate::io::port::ReadStep::Serve(3) }).collect();
+    }
+    let port = TestPort::with_state(pstate);
     let h = port.handle();
     let seen = Rc::new(RefCell::new(vec![]));
     let behaviours = Rc::new(RefCell::new(VecDeque::new()));
@@ -537,7 +545,7 @@ fn bridge_session_strategy() -> impl Strategy<Value = BridgeSession> {
         3 => Just(BusBehaviour::Silent),
         1 => Just(BusBehaviour::Fail),
     ];
-    proptest::collection::vec((line, bus), 1..=6).prop_map(|lines| BridgeSession { lines })
+    (proptest::collection::vec((line, bus), 1..=6), prop_oneof![3 => Just(None), 1 => (2u8..9).prop_map(Some)]).prop_map(|(lines, interrupt_every)| BridgeSession { lines, interrupt_every })
 }
 
 // ---------------------------------------------------------------------------------------
@@ -601,12 +609,16 @@ fn bridge_strategy() -> impl Strategy<Value = BridgeCase> {
 pub fn run(ctx: &Ctx) {
     run_generated_n(ctx, "bridge", ctx.tier.pick(200_000, 3_000_000), ctx.workers, bridge_strategy, |c, st| check_bridge(c, st));
     run_generated_n(ctx, "bridge-session", ctx.tier.pick(100_000, 1_500_000), ctx.workers, bridge_session_strategy, |c, st| check_bridge_session(c, st));
+    crate::engine::with_logging(|| {
+        run_generated_n(ctx, "bridge-session+logging", ctx.tier.pick(20_000, 300_000), ctx.workers, bridge_session_strategy, |c, st| check_bridge_session(c, st));
+        crate::engine::run_generated_opts(ctx, "serial-path+logging", ctx.tier.pick(400, 8_000), 64, 150, path_strategy, |c, st| check_path(c, st));
+    });
     crate::engine::run_generated_opts(ctx, "serial-path", ctx.tier.pick(3_000, 60_000), 64, 150, path_strategy, |c, st| check_path(c, st));
 }
 
 pub fn replay(part: &str, case: &Value) -> Result<(), String> {
     let mut st = Stats::new();
-    if part == "bridge-session" {
+    if part.starts_with("bridge-session") {
         let c: BridgeSession = serde_json::from_value(case.clone()).map_err(|e| format!("bad case: {e}"))?;
         return check_bridge_session(&c, &mut st);
     }
